@@ -13,7 +13,7 @@ Not decided: "resume within the retry budget" (liveness over fault sequences).
 import ast
 
 from ..model import self_attr, unparse, walk_body_shallow
-from .util import filtered_collects, isinstance_classes, at, call_name, call_recv, calls_in, kwarg, need, node_assign_value, norm, where
+from .util import case_reach, filtered_collects, isinstance_classes, at, call_name, call_recv, calls_in, kwarg, need, node_assign_value, norm, where
 
 TECHNIQUE = "index-variable def-use in the merge, guard-fact dominance of removals, exhaustiveness of the invalidation table"
 EXPLANATION = (
@@ -192,6 +192,28 @@ def run(ctx):
     ok = len(rt) == 1 and len(adds) == 1 and norm(rt[0].args[0]) == "*" + adds[0]
     r.check(ok, "%s#reset-before-retry" % crp.qname, "producer retry does not invalidate the topics whose partitions reported a stale leader",
             where(crp, crp.node), "every retry goes to the old leader until attempts run out")
+    # a send that fails as a whole with any Kafka error (cluster still down after the reload, leader/partition unavailable,
+    # time-out) goes to the retry path, not to the fail-everything arm: that is what lets producing resume within the budget
+    from .c09 import exc_table
+    anc_, _alias = exc_table(prog)
+    hsr = ctx.func("producer:Producer._handle_send_response")
+    chs = ctx.cfg(hsr)
+    pr_ = hsr.first_param()
+    ist = [n for n in chs.nodes if n.kind == "test" and norm(n.stmt.test) == "isinstance(%s, Failure)" % pr_]
+    fail_all = {n.id for n in chs.nodes if any(call_name(c) == "_deliver_result" and c.args and isinstance(c.args[0], ast.Call) and
+                                                call_name(c.args[0]) == "values" for c in n.calls())}
+    if ist and fail_all:
+        start_ = [t for t, lab in chs.succ[ist[0].id] if lab and lab[0] == "cond" and lab[2]]
+        for cls_ in ("KafkaUnavailableError", "LeaderUnavailableError", "PartitionUnavailableError", "RequestTimedOutError", "KafkaError"):
+            if cls_ not in anc_:
+                continue
+            bad_ = case_reach(chs, pr_, cls_, anc_, False, fail_all, start=start_)
+            r.check(not bad_, "%s#total-failure-retried[%s]" % (hsr.qname, cls_),
+                    "a produce attempt failing as a whole with %s is failed outright instead of being retried" % cls_, where(hsr, ist[0].stmt),
+                    "single-broker restart: the retry's metadata reload finds the cluster still down (KafkaUnavailableError): the message "
+                    "fails after 2 of 10 attempts although the broker is back moments later")
+    else:
+        r.fail("%s#total-failure-retried" % hsr.qname, "total-failure classification not found in the response handler", where(hsr, hsr.node))
     glp = ctx.func(KC + "._get_leader_for_partition")
     cg = ctx.cfg(glp)
     fg = ctx.facts(glp, kill_on_suspend=False)
